@@ -46,7 +46,7 @@ inductive Outcome (α : Type) where
   | emptyLevel
   /-- `precondition(cond, msg)` failed (`std::runtime_error`) -/
   | precondition
-  deriving Repr
+  deriving Repr, DecidableEq
 
 namespace Outcome
 variable {α β : Type}
